@@ -27,7 +27,7 @@ def sh(cmd, cwd=None, env=None, timeout=1800):
 
 
 def ingest(pid, x):
-    src = '/tmp/seed/%s/out' % pid
+    src = '%s/%s/out' % (os.environ.get('SEED_DIR', '/tmp/seed'), pid)
     patch = os.path.join(src, 'change_%s.diff' % x)
     demo = os.path.join(src, 'demo_%s.py' % x)
     notes = os.path.join(src, 'notes_%s.txt' % x)
@@ -63,7 +63,7 @@ def ingest(pid, x):
     os.makedirs(dst, exist_ok=True)
     shutil.copy(patch, os.path.join(dst, 'patch.diff'))
     shutil.copy(demo, os.path.join(dst, 'demo.py'))
-    meta = {'property': pid, 'origin': 'independent sub-agent given only the property text and a scratch worktree',
+    meta = {'property': pid, 'origin': os.environ.get('SEED_ORIGIN', 'independent sub-agent given only the property text and a scratch worktree'),
             'needs_to_manifest': open(notes).read().strip()[:1500] if os.path.exists(notes) else '',
             'confirmed': ran, 'repo_head': sh('git -C %s rev-parse --short HEAD' % REPO)[1].strip()}
     json.dump(meta, open(os.path.join(dst, 'meta.json'), 'w'), indent=1)
